@@ -53,6 +53,34 @@ func c19Commit(e *Env, c *CommitRec) {
 	prev := stateFromCatalog(c.Prev)
 	cur := stateFromCatalog(c.Cat)
 	must, may := prev.Expired(now, ttlTol)
+	for _, alt := range e.wallCandidates(c)[1:] {
+		// the wall clock was stepped by the client at the very instant of this pass: the pass has read the clock
+		// before or after the step. Only what is expired under every possible reading must go, what is expired
+		// under any may go
+		e.probe("expiry-pass-at-clock-step")
+		m2, y2 := prev.Expired(alt, ttlTol)
+		for ns := range prev.Colls {
+			var both, either []bson.D
+			for _, d := range prev.Colls[ns].Docs {
+				k := string(model.Bytes(d))
+				has := func(l []bson.D) bool {
+					for _, x := range l {
+						if string(model.Bytes(x)) == k {
+							return true
+						}
+					}
+					return false
+				}
+				switch {
+				case has(must[ns]) && has(m2[ns]):
+					both = append(both, d)
+				case has(must[ns]) || has(may[ns]) || has(m2[ns]) || has(y2[ns]):
+					either = append(either, d)
+				}
+			}
+			must[ns], may[ns] = both, either
+		}
+	}
 	removedTotal := 0
 	type removal struct {
 		ns  model.NS
